@@ -563,11 +563,14 @@ impl<M: AlignMarker> Ctx<M> {
                 // (1 AtomicRc::from(&Rc), 2 AtomicRc::from(Rc), 3 AtomicWeak::from(&Rc), 4 AtomicWeak::from(&Weak))
                 let mut node = node;
                 let mut conv_field = 0usize;
+                // (object, tag) of the pointer the conversion was given
+                let mut conv_src = (0u32, 0usize);
                 if d >= 1 && d <= 4 && b < NRC {
                     if let Some(src) = self.rcs[b].as_ref() {
                         let w = circ::verif::rc_word(src);
                         if let Some(t) = shadow().obj_of_word(w) {
                             if shadow().objs[t as usize].rank > rank {
+                                conv_src = self.val(w);
                                 match d {
                                     1 => {
                                         node.next[0] = AtomicRc::from(src);
@@ -603,6 +606,7 @@ impl<M: AlignMarker> Ctx<M> {
                     if let Some(src) = self.weaks[b].as_ref() {
                         if let Some(t) = shadow().obj_of_word(circ::verif::weak_word(src)) {
                             let wk = src.clone();
+                            conv_src = self.val(circ::verif::weak_word(src));
                             shadow().acquire_weak(t, "Weak::clone");
                             if d == 5 {
                                 *node.wlink.get_mut() = wk;
@@ -625,6 +629,12 @@ impl<M: AlignMarker> Ctx<M> {
                         2 => (circ::verif::atomic_rc_addr(&n.next[1]), false, read_word(circ::verif::atomic_rc_addr(&n.next[1]))),
                         _ => (circ::verif::atomic_weak_addr(&n.wlink), true, read_word(circ::verif::atomic_weak_addr(&n.wlink))),
                     };
+                    // a conversion moves the pointer it is given into the cell as it is: same
+                    // object, same tag (C08/C09: the cell holds a (pointer, tag) pair)
+                    if self.val(w) != conv_src {
+                        let det = format!("a cell built by conversion variant {} from (#{}, tag {}) holds (#{}, tag {})", d, conv_src.0 as i64 - 1, conv_src.1, self.val(w).0 as i64 - 1, self.val(w).1);
+                        shadow().soft(if weak_cell { "C09" } else { "C08" }, "conversion-changed-content", det);
+                    }
                     hist_push(HistEv { tid, cell, weak_cell, kind: if weak_cell { K::StoreW } else { K::Store }, weak_cas: false, inv: seq, ret: seq, input: self.val(w), expected: (0, 0), ok: true, output: (0, 0), back: (0, 0) });
                 }
                 self.put_rc(a, rc);
